@@ -22,6 +22,16 @@ func runAsmDomain(domain string, out *bufio.Writer, rng *rand.Rand, thorough boo
 		genLoadBad(out, rng, cnt(20000, 1000000))
 	case "listing":
 		genListing(out, rng, cnt(3000, 200000))
+	case "asm94":
+		genAsm(out, rng, false, cnt(3000, 150000))
+	case "asm88":
+		genAsm(out, rng, true, cnt(2000, 100000))
+	case "expr":
+		genExpr(out, rng, cnt(4000, 200000))
+	case "for":
+		genFor(out, rng, cnt(3000, 150000))
+	case "soup":
+		genSoup(out, rng, cnt(12000, 600000))
 	default:
 		return runHookDomain(domain, out, rng, cnt)
 	}
